@@ -76,9 +76,19 @@ MANIFEST = dict(
          "(`P[k1 op v1]/items[k2 op v2]/f`, P starting with an index) and C06_chained_list_root (the root list is the outer "
          "record list), get / item access (return_lists=True contributions) and first (return_lists=False contributions), "
          "`items` a list of dict records or one dict record (xld_chained_spelled, xld_chained_root); "
-         "C06_chained_list_deep_example. Differential only: index spellings with blanks inside the brackets, "
-         "non-canonical spellings of P at string level in an n0list-rooted tree (15 % of the generated "
-         "trees keep a list root, all forms and chained selections, evaluator and model stream), a scalar `items` "
+         "C06_chained_list_deep_example. ANY SPELLING of P below a list root, string level: C06_star_list_deep_spelled, "
+         "C06_pred_list_deep_spelled (P = renderSp lead steps: prefix none, / or //, `][` vs `]/[`, `a[i]` vs `a/[i]`, index as "
+         "i, -k, last(), last()-k, i+j; stepsGet = plain Python indexing reaches the record list; get, item access and first; "
+         "xlds_star_string / xlds_pred_string in Proofs/XPathListDeepSp.lean over xld_*_spelled and the root-independent "
+         "sel3_tokenize_sp_* lemmas); C06_list_deep_spelled_example evaluates `[-2]/a/b[*]/f`, `/[last()]/[1][k=2]/f`, "
+         "`//[0+1]/c[-1][k!=2]/f`, … run against the implementation; chained selections behind any spelling of P below a list "
+         "root: C06_chained_list_deep_spelled (xlds_chained_string), C06_chained_list_deep_spelled_example "
+         "(`/[-1]/[last()][i=1]/t[s=B]/q`, …). Index tokens with blanks inside the brackets, TOKEN level: C06_idx_blank_tok "
+         "(`[ e ]` / `name[ e ]` are IdxTok / KeyIdxTok for the stripped expression - Proofs/XPathIdxBlank.lean - so the "
+         "Sel3Spells token-level theorems cover them; C06_idx_blank_example: tokenisation and results of `a[ -1 ][k=1]/f`, … as "
+         "the implementation returns them). Differential only: the STRING level for index spellings with blanks inside "
+         "the brackets (15 % of "
+         "the generated trees keep a list root, all forms and chained selections, evaluator and model stream), a scalar `items` "
          "(fix C06-h: a single value does not satisfy a condition, that parent contributes nothing - before, IndexError left the "
          "fan-out loop and hid the selections of all other parents; C06_scalar_inner_example; 20 % of the generated order lists "
          "carry scalar `items` in some parents). The "
